@@ -4,9 +4,9 @@ package retransmission
 
 // C16, the duplicate filter alone (see /verif/specs/Broadcast/DupFilter.tla).
 //
-// WithRetransmissionSupport is documented as thread-safe. Six goroutines call
-// one wrapped handler at the same time with messages drawn from four
-// (sender, seqno) keys. Before a round is let go, all its callers are held
+// WithRetransmissionSupport is documented as thread-safe. Six goroutines (sixteen
+// in the rounds that are only checked directly) call one wrapped handler at
+// the same time with messages drawn from four (sender, seqno) keys. Before a round is let go, all its callers are held
 // inside message.Seqno() - the last thing the filter does before it takes its
 // mutex - so that they reach the membership test together. Call / Delegate /
 // Return events are validated for linearizability against the atomic
@@ -62,7 +62,16 @@ func TestVerif_C16_Filter(t *testing.T) {
 	}
 	keys := []key{{"s1", 1}, {"s1", 2}, {"s2", 1}, {"s2", 2}}
 
+	allProcs := procs
+	for i := 7; i <= 16; i++ {
+		allProcs = append(allProcs, fmt.Sprintf("p%d", i))
+	}
 	for round := 0; round < rounds; round++ {
+		// rounds that are not recorded use more callers and one fresh key per wave
+		procs := procs
+		if round >= traced {
+			procs = allProcs
+		}
 		emit := func(ev map[string]interface{}) {
 			if round < traced {
 				tr.Emit(ev)
@@ -84,15 +93,21 @@ func TestVerif_C16_Filter(t *testing.T) {
 		})
 		// two or three waves per round; in each wave every goroutine makes one call
 		waves := 2 + rnd.Intn(2)
+		if round >= traced {
+			waves = len(keys)
+		}
 		for w := 0; w < waves; w++ {
 			// mostly the same key for everybody (maximal contention), sometimes mixed
 			common := keys[rnd.Intn(len(keys))]
+			if round >= traced {
+				common = keys[w%len(keys)] // a key this round's filter has not seen yet
+			}
 			var arrived sync.WaitGroup
 			var release int32 // spun on, so that all callers start within nanoseconds of each other
 			var done sync.WaitGroup
 			for _, p := range procs {
 				k := common
-				if rnd.Intn(4) == 0 {
+				if round < traced && rnd.Intn(4) == 0 {
 					k = keys[rnd.Intn(len(keys))]
 				}
 				ks := fmt.Sprintf("%s:%d", k.s, k.n)
